@@ -175,6 +175,10 @@ def run_shard(mod, spec):
         res.count("yields_checked", sum(len(x.get("yields", [])) for x in r.get("calls", [])))
         if hasattr(mod, "observe"):
             mod.observe(c, r, res)
+        if c.get("plan") and len(res.samples) < 2 and r.get("fired"):
+            res.sample({"base_case": _brief({k: v for k, v in c.items() if k != "plan"}), "delay_plan": c["plan"],
+                        "status": r.get("status"), "delay_points_fired": r.get("fired"), "wall_s": r.get("wall"),
+                        "thread_switch_pairs_seen": r.get("switch_pairs"), "calls": _calls_brief(r)}, limit=2)
         fs = mod.findings(c, r, res) if hasattr(mod, "findings") else findings(c, r)
         for kind, mech, summary in fs:
             if mod.owns(kind, mech, c, r):
@@ -219,7 +223,7 @@ def run_shard(mod, spec):
         if hasattr(mod, "extra_runs"):
             mod.extra_runs(case, res, scratch, tier, rng)
         res.sample({"base_case": _brief(case), "dry_run_status": dry.get("status"),
-                    "dry_run_switch_pairs": dry.get("switch_pairs")})
+                    "dry_run_switch_pairs": dry.get("switch_pairs")}, limit=3)
     finally:
         shutil.rmtree(scratch, ignore_errors=True)
     return res.as_dict()
